@@ -428,3 +428,59 @@ def run_c11(tier, seed, res):
     res.coverage['cli_rule'] = ('the real binary (default verbosity, RLIMIT_AS 4 GiB, 8 s horizon, threads alternating 1/2) on: every token sequence of length <= 2, every k-th element of the edit and grid '
                                'spaces (k as listed; the lib-level sweep runs them all), each hunk-header field alone over the full boundary grid, and every sequence of <= %d series-file lines over %d tokens '
                                '(option spellings incl. missing/garbage/overlong arguments, comments, blank and whitespace-only lines, non-UTF-8 and NUL bytes). Oracle: exit class 0 or 1.') % (maxlen, len(SERIES_TOKENS))
+
+
+# ------------------------------------------------------------------ C02 at CLI level: --fuzz is honoured (and 0 by default)
+
+def c02_cli_case(task):
+    m0, need, series, fz, threads = task
+    d = wsweep.wdir()
+    root = os.path.join(d, 'ws')
+    names = tq.names_for(series)
+    files, patches, lines = tq.workspace_of(m0, series, names)
+    ws.make_ws(root, files, patches, lines)
+    args = ['-a', '-q', '--backup', 'never'] + ([] if fz is None else ['--fuzz', str(fz)])
+    o = ws.run_rq(root, args, threads=threads, trace=os.path.join(d, 'trace'))
+    snap = ws.snapshot(root)
+    limit = 0 if fz is None else fz
+    want_ok = limit >= need
+    out = {'evals': 1, 'nontrivial': 1, 'violations': [], 'outcomes': {'needs-%d:limit-%s:exit-%s' % (need, 'default' if fz is None else fz, o.cls): 1}}
+    tags = cls({'needs-fuzz-%d' % need, 'limit-%s' % ('default' if fz is None else fz)})
+    w = lambda extra: witness(m0, series, {'goal': ['-a'], 'quiet': True, 'backup': 'never', 'fuzz': fz, 'threads': threads}, extra, names)
+    if o.cls not in ('0', '1'):
+        out['violations'].append((tags, o.cls, w({'observed': o.cls})))
+    elif (o.cls == '0') != want_ok:
+        out['violations'].append((tags, 'applied-beyond-the-fuzz-limit' if o.cls == '0' else 'refused-within-the-fuzz-limit',
+                                  w({'expected': 'applies' if want_ok else 'fails (a context line differs, fuzz limit %d < %d needed)' % (limit, need), 'observed': 'exit ' + o.cls})))
+    elif want_ok:
+        # the fuzzy hunk replaced line 3 of its file and nothing else
+        f = series[1].fps[0].old
+        got = ws.tree_of(snap).get(f, (b'', 0))[0].split(b'\n')
+        orig = files[f][0].split(b'\n')
+        diff = [i for i in range(max(len(got), len(orig))) if (got[i] if i < len(got) else None) != (orig[i] if i < len(orig) else None)]
+        if diff != [3]:
+            out['violations'].append((tags, 'fuzzy-hunk-changed-other-lines', w({'expected': 'only line 4 of %s changes' % f, 'observed': diff})))
+    return out
+
+
+def run_c02_cli(tier, seed, res):
+    m0 = tq.initial()
+    tasks = []
+    for s in fuzzy_series(m0):
+        name = s[1].fps[0].name           # fuzzy<ctx><side>(file)
+        body = s[1].fps[0].hunks[0].body
+        pctx = next(i for i, (t, _) in enumerate(body) if t != ' ')
+        sctx = next(i for i, (t, _) in enumerate(reversed(body)) if t != ' ')
+        # the documented rule: at level f the longer context is cut to max(p,s)-f, the shorter one only as far as needed;
+        # the wrong line is the outermost one of its side, so it goes as soon as that side loses one line
+        need = max(pctx, sctx) - (pctx if 'first' in name else sctx) + 1
+        for fz in (None, 0, 1, 2, 3):
+            for threads in (1, 2):
+                tasks.append((m0, need, s, fz, threads))
+    acc = wsweep.Acc(res)
+    for i, r in enumerate(wsweep.pmap(c02_cli_case, tasks)):
+        if i % 37 == 0:
+            r = dict(r)
+            r['sample'] = {'series': tq.describe_series(tasks[i][2]), 'fuzz_limit': tasks[i][3], 'threads': tasks[i][4], 'outcome': sorted(r['outcomes'])}
+        acc.add(r)
+    acc.finish('cli_fuzz_limit')
